@@ -48,6 +48,9 @@ pub struct Case {
     pub no_drain: bool,
     /// C17 mode: number of polls to run
     pub fair_polls: u16,
+    /// C03: polls of the combinator *after* it produced its final result
+    /// (allowed to panic or answer anything, but not to poll a child)
+    pub post_polls: u8,
 }
 
 impl CombSpec {
@@ -132,6 +135,6 @@ impl Case {
             acts.join(" "),
             if self.no_drain { " (no drain)" } else { " then fair drain" },
             if self.fair_polls > 0 { format!(" fair_polls={}", self.fair_polls) } else { String::new() }
-        )
+        ) + &(if self.post_polls > 0 { format!(" then {} poll(s) after the final result", self.post_polls) } else { String::new() })
     }
 }
